@@ -13,7 +13,7 @@ from harness.framework import Suite
 PID = "C04"
 LEAN_MODS = ["SwcVerif.Props.C04", "SwcVerif.Props.C04Gen"]
 TRANSLATE_ALGO = ["AlgoTraverse"]      # Gen/AlgoTraverse.lean is regenerated from swc_utils/base.py::_traverse_dfs on every run
-DRIVER_FILES = ["SwcVerif/Model/AlgoRun.lean"]
+DRIVER_FILES = ["SwcVerif/Model/AlgoRunTraverse.lean"]
 THEOREMS = [
     "C04.traverse_eq_spec", "C04.fuel_suffices", "C04.outside_untouched",
     "C04.enter_once_per_subtree_node", "C04.leave_once_per_subtree_node",
